@@ -241,6 +241,32 @@ MC_FAMILIES = {  # cfg file, (quick depth, thorough depth)
 MC_FAMILY_CFG = {"accounts": 8, "dids": 2, "validators": 2, "balance": 10000000, "blockReward": 840}
 
 
+def liveness_check(binary, workdir, tier):
+    """C12 as a temporal property: TLC checks <>[]AllSettled on spec/Live.tla under weak fairness of the block step (time
+    passes, no provider is obliged to do anything), complete state space, no constraint. A design-level result: the
+    transition function is the one every recorded step of the real code is compared with. Also the witness that the
+    property is not vacuous: []AllSettled must be violated (orders do start unsettled)."""
+    stage_spec(workdir)
+    rc, o, _ = run([binary, "genesis", "--cfg", json.dumps(MC_CFG), "--out", os.path.join(workdir, "genesis.json")])
+    if rc != 0:
+        raise MachineryError("genesis failed: " + o[-1000:])
+    cfgfile = "Live_quick.cfg" if tier == "quick" else "Live.cfg"
+    rc, out, wall = tlc(workdir, "Live.tla", cfgfile, workers=6, timeout=600 if tier == "quick" else 3000, heap="8g")
+    open(os.path.join(workdir, "tlc.live.out"), "w").write(out)
+    m = None
+    for m in TLC_STATS.finditer(out):
+        pass
+    res = {"property": "EventuallySettled == <>[]AllSettled under WF(TickStep)", "config": cfgfile, "states": int(m.group(2)) if m else 0,
+           "generated": int(m.group(1)) if m else 0, "wall_s": round(wall, 1),
+           "holds": "Model checking completed. No error has been found." in out, "violated": "Temporal properties were violated" in out}
+    # vacuity witness: the same model with the safety version of the goal as invariant must fail at once
+    wit = open(os.path.join(workdir, "Live_quick.cfg")).read().replace("PROPERTY EventuallySettled", "INVARIANT AllSettled")
+    open(os.path.join(workdir, "Live_witness.cfg"), "w").write(wit)
+    rc2, out2, _ = tlc(workdir, "Live.tla", "Live_witness.cfg", workers=1, timeout=300, heap="2g")
+    res["witness_unsettled_states_exist"] = "Invariant AllSettled is violated" in out2
+    return res
+
+
 def family_gcfg(fam):
     """The world (harness configuration) an exhaustive family starts from."""
     gcfg = MC_CFG if fam in ("timeout", "sponsor", "migrate", "version", "debt", "stagger") else MC_FAMILY_CFG   # long time jumps: no block reward there
@@ -483,6 +509,7 @@ def family_run(tier, seed, use_cache=True):
         val = validate_traces(files, os.path.join(rdir, "tlc"))
         val["mc"] = mc
         val["mc_families"] = fams
+        val["liveness"] = liveness_check(binary, os.path.join(rdir, "live"), tier)
         # sample: the event kinds of the first trace
         sample = []
         with open(files[0]) as fh:
@@ -583,6 +610,10 @@ def run_property(pid, tier, seed, use_cache=True):
             mine.update(extra)
             # exact conformance with the specification's RandomSP (Conf_*) is evidence, not a verdict: only property formulas decide
             viol += [v for v in sel["violations"] if v["formula"].startswith(pid + "_")]
+        if pid == "C12" and (val.get("liveness") or {}).get("violated"):
+            # the DESIGN admits an order that is never settled: a finding about the specification, to be looked at by hand; only
+            # states observed on the real code are verdicts
+            raise MachineryError("spec/Live.tla: TLC reports a counterexample to EventuallySettled (see %s/live/tlc.live.out)" % fam["dir"])
         mc = val.get("mc") or {"states": 0, "generated": 0}
         fams = val.get("mc_families") or {}
         mstates = mc["states"] + sum(r["states"] for r in fams.values())
@@ -590,6 +621,7 @@ def run_property(pid, tier, seed, use_cache=True):
         cov = {
             "states": mstates + val["states"], "transitions": mtrans + max(1, val["states"] - fam["driver"]["traces"]),
             "model_states_exhaustive": mstates, "model_transitions_exhaustive": mtrans, "model_check": dict(fams, pay=mc),
+            "temporal_check": val.get("liveness"),
             "observed_states": val["states"],
             "traces_validated_against_impl": fam["driver"]["traces"],
             "samples": [fam["sample"]],
